@@ -1,22 +1,12 @@
 # Data for MANIFEST.json (edit here, then run lib/mkmanifest.py).
 HOOK_COMMITS = ["50b8633", "a5b2280", "2f4e342", "1984692"]
 # properties whose check is registered (their MANIFEST dict is taken from checks/cXX.py unless given in CHECKS below)
-READY = ["C01", "C02", "C03", "C04", "C05", "C06", "C07", "C09", "C10", "C11", "C12", "C13", "C14", "C15", "C16", "C17", "C18", "C19", "C20"]
+READY = ["C01", "C02", "C03", "C04", "C05", "C06", "C07", "C08", "C09", "C10", "C11", "C12", "C13", "C14", "C15", "C16", "C17", "C18", "C19", "C20"]
 NOTES = ("Deciding technique for every claimed property: machine-checked proof in Coq 8.16.1 about an executable model, "
          "tied to /repo's working tree on every run by a checked correspondence (see DESIGN.md §2-§3). "
-         "known_findings.json lists open findings and fix: commits.")
-PENDING = "check not built yet in this round (work in progress, see DESIGN.md §9 order of work); the technique applies and the property will be claimed"
+         "known_findings.json lists open findings and fix: commits. Wherever a check's text says 'needs fixes/<name>.patch': every patch under "
+         "fixes/ is applied in /repo as a fix: commit (fixes/README.md); the phrase describes what the check reports on a tree without it.")
+PENDING = "check under construction at the time of this commit (model coq/C08, harness cmd/c08actor exist, not yet registered); the technique applies and the property will be claimed"
 NOT_APPLICABLE = {("C%02d" % i): PENDING for i in range(1, 21)}
 
-CHECKS = {
- "C15": {
-  "text": "Theorem C15_ring_refines_fifo (Coq, by induction over the operation list with a representation invariant): for every initial "
-          "capacity and every operation sequence the ring buffer model — which transcribes ring.go's cursor arithmetic, growth and "
-          "wrap-around — returns exactly the outputs of a FIFO list. The model is tied to the current ring.go by differential runs "
-          "(3 000 random op sequences quick; +177 k exhaustive short sequences thorough) evaluated inside Coq with vm_compute. "
-          "Other containers of C15 (queues, unbounded buffers/channels) are being added.",
-  "note": "Trusted: Coq kernel + vm_compute; the hand-written model's correspondence is sampled, not proved; Go harness, generators, "
-          "FIFO monitor and driver. No axioms (Print Assumptions: closed under the global context).",
-  "technique": "Coq proof (refinement to FIFO list by invariant induction) + differential correspondence check model vs implementation",
- },
-}
+CHECKS = {}   # every MANIFEST dict lives in checks/cXX.py
